@@ -179,6 +179,10 @@ class IsoDepInitiator(object):
                     log.error("ISO-DEP unrecoverable protocol error")
                     raise Type4TagCommandError(nfc.tag.PROTOCOL_ERROR)
 
+            if data[0] & 0b11101110 != 0x02:  # INF
+                log.error("ISO-DEP protocol error: expected inf")
+                raise Type4TagCommandError(nfc.tag.PROTOCOL_ERROR)
+
             if data[0] & 0x01 != self.pni:
                 log.error("ISO-DEP protocol error: block number")
                 raise Type4TagCommandError(nfc.tag.PROTOCOL_ERROR)
